@@ -325,3 +325,20 @@ META['C19'] = dict(
     technique='runtime scenario monitoring under the race detector on virtual time: concurrent pings vs scheduled matching / foreign / malformed replies, waiter-table hook',
     level_text='Exploration: 3*10^3 (quick) / 2*10^5 (thorough) scenarios of up to 8 concurrent pings; each ping result and return instant is compared with what the arrival schedule implies; the waiter table must be empty afterwards.',
     level_note='Trusted base: the scenario generator never schedules an arrival at a time-out instant; identifiers are read from the wire.')
+
+PROPS['C10'] = dict(
+    runs=[run('plain')], shards=16, watchdog=True, level='exploration',
+    rule=('packet histories of 24 steps through the full stack (session + arp, dhcp4 with a real lease file, icmp6, dns handlers) in synctest bubbles: DHCP DISCOVER / selecting REQUEST (using the '
+          'offer seen) / renew with client-id, host name and parameter list, router advertisements with generated option lists (x4), DNS and mDNS responses, NBNS, SSDP, ARP, IPv4 and IPv6 host '
+          'frames, Capture/Release, time advances with MinuteTicker. Each history is executed twice with identical virtual times: (A) every packet is delivered in ONE shared receive buffer that is '
+          'overwritten with a5 / 5a / PRNG bytes as soon as Parse+ProcessPacket+Notify return, (B) every packet in a private never-modified buffer. Per step the two runs are compared on: notification '
+          'multiset, emitted frames (DHCP canonicalised by sorted options), host and MAC tables with all five names, DHCP offers, DNSFind of every name seen, FindRouter with all option fields, and the '
+          'lease file. Non-trivial = a history in which some handler retained something (lease, router, DNS entry); distinct = number of retention points'),
+    assumptions=['both runs see identical virtual time (synctest), so any difference is caused by the buffer reuse', 'map iteration order differences are removed by canonicalisation (sorting)'],
+    min_obs={'quick': {'retention_points_compared': 3000, 'transcript_lines_compared': 100000}, 'thorough': {'retention_points_compared': 3000}},
+    timeout={'quick': 1200, 'thorough': 6*3600},
+)
+META['C10'] = dict(
+    technique='runtime differential monitoring: identical packet histories with a scribbled shared receive buffer vs private immutable buffers, compared per step on all retention points (virtual time)',
+    level_text='Exploration: 1.5*10^3 (quick) / 10^5 (thorough) histories x 2 runs through the whole handler stack; any retained slice of the caller buffer shows up as a difference in tables, names, leases, routers, DNS entries, later replies or notifications.',
+    level_note='Trusted base: determinism of the two bubbles (same virtual clock, same PRNG); canonicalisation removes map-order differences only.')
